@@ -6,7 +6,7 @@ CONSTANTS
   Tokens = {}
   AppStates = {}
   NodeIds = {"N1"}
-  Enabled = {"Authorize","Remove","Nid"}
+  Enabled = {"Authorize","Remove","Nid","KeyKind"}
   MaxGen = 3
   CfgSW = FALSE
   CfgNidl = TRUE
